@@ -177,6 +177,48 @@ theorem perplexity_exponent_rat {σ : Type} (M : LM σ Rat) (hc : M.Coherent) (s
   rw [this.2.2 h, ← this.1]
   rfl
 
+/-! ## whitespace, normal form, OOV flags -/
+
+/-- **normal form**: every sentence tokenises like its tokens joined by single spaces -/
+theorem split_normal_form (s : Bytes) : pySplit (joinWith 32 (pySplit s)) = pySplit s := by
+  rw [pySplit_spec (joinWith 32 (pySplit s))]
+  apply splitSpec_join pySpace 32 (by decide)
+  intro t ht
+  have := (split_tokens s).1 t ht
+  exact ⟨this.1, this.2.1⟩
+
+/-- **whitespace does not matter**: two NUL-free sentences with the same tokens get the same score, the same
+per-word results and the same perplexity arguments, whatever the kind and amount of whitespace between, before
+or after the tokens — for all flag combinations. -/
+theorem whitespace_irrelevant {σ α : Type} (M : LM σ α) (s s' : Bytes) (h0 : 0 ∉ s) (h0' : 0 ∉ s')
+    (h : pySplit s = pySplit s') (bos eos : Bool) :
+    M.pyScore kSpaces s bos eos = M.pyScore kSpaces s' bos eos ∧
+    M.fullScores s bos eos = M.fullScores s' bos eos ∧
+    M.perplexityArgs kSpaces s = M.perplexityArgs kSpaces s' := by
+  have hs : M.slowIds s = M.slowIds s' := by unfold LM.slowIds; rw [h]
+  have hf : M.fastIds kSpaces s = M.fastIds kSpaces s' := by
+    unfold LM.fastIds; rw [split_agree s h0, split_agree s' h0', h]
+  have e1 : ∀ b e, M.pyScore kSpaces s b e = M.pyScore kSpaces s' b e := by
+    intro b e
+    unfold LM.pyScore LM.scoreFast LM.scoreSlow
+    rw [hs, hf]
+  refine ⟨e1 bos eos, ?_, ?_⟩
+  · unfold LM.fullScores; rw [hs]
+  · unfold LM.perplexityArgs; rw [e1 true true, h]
+
+/-- **OOV flags**: the flags `full_scores` reports for the words of the sentence are exactly
+`not (word in model)` — both are `Index(word) == 0` -/
+theorem oov_flags {σ α : Type} (M : LM σ α) (s : Bytes) (bos : Bool) :
+    (M.fullScores s bos false).map (·.2) = (pySplit s).map (fun w => !M.contains w) := by
+  unfold LM.fullScores
+  simp only [Bool.false_eq_true, if_false]
+  rw [LM.foldFull_flags]
+  simp only [LM.slowIds, LM.contains, List.map_map]
+  apply List.map_congr_left
+  intro w _
+  simp only [Function.comp]
+  cases h : M.indexC w == 0 <;> simp [bne, h]
+
 /-! ## bin/query -/
 
 /-- **query_eq**: for a one-line, NUL-free sentence the Python module returns what `bin/query` prints:
